@@ -573,8 +573,8 @@ impl Check for C05 {
     }
     fn budget(&self, tier: Tier) -> u64 {
         match tier {
-            Tier::Quick => 40_000,
-            Tier::Thorough => 6_000_000,
+            Tier::Quick => 100_000,
+            Tier::Thorough => 30_000_000,
         }
     }
     fn generate(&self, rng: &mut Rng, idx: u64, _tier: Tier) -> Option<E3Scn> {
